@@ -19,6 +19,7 @@ import (
 )
 
 var verifCorpus = []struct{ name, src string }{
+	{"attrgroups-merged", "define void @f() #0 {\n\tret void\n}\n\ndefine void @g() #1 {\n\tcall void @f() #0\n\tret void\n}\n\nattributes #0 = { nounwind }\nattributes #1 = { cold }\nattributes #0 = { readnone }\n"},
 	{"recursive-types", `%list = type { i32, %list* }
 %a = type { %b* }
 %b = type { %a*, %list }
